@@ -198,3 +198,21 @@ Proof.
     apply forallb_forall. intros c Hin. apply forallb_forall. intros m Hm.
     apply (H E n c m eq_refl Hin Hm).
 Qed.
+
+Lemma is_busy_eq : forall r, is_busy r = true <-> r = ErrBusy.
+Proof. destruct r; simpl; split; congruence. Qed.
+
+Lemma rejected_start_inert_reflect : forall x, rejected_start_inert_b x = true <-> rejected_start_inert x.
+Proof.
+  intros [[pre o] ob]. unfold rejected_start_inert_b, rejected_start_inert.
+  rewrite andb_true_iff, !orb_true_iff, !negb_true_iff, !andb_true_iff, is_nil_eq,
+          (list_eqb_eq _ opt_nat_eqb opt_nat_eqb_eq), !(list_eqb_eq _ Bool.eqb bool_eqb_eq), (list_eqb_eq _ cmd_eqb cmd_eqb_eq).
+  split.
+  - intros [H1 H2]. split.
+    + intros Hr. destruct H1 as [H1|H1]; [congruence | assumption].
+    + intros Hr. destruct H2 as [H2|H2]; [apply is_busy_eq in Hr; congruence | tauto].
+  - intros [H1 H2]. split.
+    + destruct (is_start_error (o_ret ob)); [right; auto | left; reflexivity].
+    + destruct (is_busy (o_ret ob)) eqn:E; [right | left; reflexivity].
+      apply is_busy_eq in E. specialize (H2 E). tauto.
+Qed.
